@@ -295,9 +295,30 @@ def ref_nearest(depth: int, a: int, b: int) -> bool:
     inner = Ref('r', (T, lambda v: ('inner', v)))
     outer = Ref('r', {'in': (Val(b), inner, Ref('r')), 'own': (Val(a), Coalesce((lambda v: v + 1), default=0))})
     got = glom(0, outer, glom_debug=True)
+    # ONE reader object used under two different definitions (siblings), and again in a later call
+    reader = Ref('q')
+    # definition 1 and definition 2 each enclose the SAME reader object
+    def1 = Ref('q', Coalesce(_Once(reader), Val(('first', a))))
+    def2 = Ref('q', Coalesce(_Once(reader), Val(('second', b))))
+    r1 = glom(0, {'x': def1, 'y': def2}, glom_debug=True)
+    r2 = glom(0, def2, glom_debug=True)
+    if r1 != {'x': ('first', a), 'y': ('second', b)} or r2 != ('second', b):
+        return fail(why='a shared Ref(name) reader must resolve to the definition enclosing it in THIS evaluation', r1=r1, r2=r2)
     reach('ref')
     # after the inner definition, Ref('r') on the same chain resolves to the inner (nearest) one
     return got == {'in': ('inner', ('inner', b)), 'own': a + 1} or fail(got=got)
+
+
+class _Once:
+    """spec that defers to `inner` the first time it is evaluated in a call chain and fails afterwards, so that the
+    recursion Ref(q) -> definition -> Ref(q) terminates after one level"""
+    def __init__(self, inner):
+        self.inner = inner
+
+    def glomit(self, target, scope):
+        if target == 'in':
+            raise GlomError('stop')
+        return scope[gc.glom]('in', self.inner, scope)
 
 
 def obligations(tier):
